@@ -1212,7 +1212,10 @@ func (w *World) schemaKeywordWrites(fi *FuncInfo) map[string]string {
 					}
 				}
 			case *ast.CompositeLit:
-				if isSchema(x) || (func() bool { t := info.TypeOf(x); return t != nil && (strings.HasSuffix(types.TypeString(t, nil), "openapi3.Schema") || strings.HasSuffix(types.TypeString(t, nil), "high/base.Schema")) })() {
+				if isSchema(x) || (func() bool {
+					t := info.TypeOf(x)
+					return t != nil && (strings.HasSuffix(types.TypeString(t, nil), "openapi3.Schema") || strings.HasSuffix(types.TypeString(t, nil), "high/base.Schema"))
+				})() {
 					for _, el := range x.Elts {
 						if kv, ok := el.(*ast.KeyValueExpr); ok {
 							if id, ok := kv.Key.(*ast.Ident); ok {
